@@ -33,6 +33,7 @@ const (
 type obs struct{ name, val string }
 
 type c04 struct {
+	dupFront bool // a forged copy of a top-level member was spliced in front of the genuine one
 	r       *sim.Run
 	t       *sim.Tape
 	ver     gmsl.IRoomVersion
@@ -679,8 +680,8 @@ func (c *c04) act(h int, m map[string]any, faultMode int) {
 			if t.Bool() {
 				delete(hs, "sha256")
 			} else {
-				raw[0] ^= 0x40
-				hs["sha256"] = base64.RawStdEncoding.EncodeToString(raw)
+				// spoiled for good (a later bit flip cannot restore it)
+				hs["sha256"] = "c3BvaWxlZCBmb3IgZ29vZA"
 			}
 			what = "lookalike_member"
 		}
@@ -788,6 +789,31 @@ func (c *c04) receive(h int) {
 	projSame := c.hashedProj(m) == c.origProj
 	hashSame := ref.Render(m["hashes"]) == c.origHashes
 	expectRedacted := !projSame || !hashSame
+	if c.t.Chance(60) && len(c.cur) > 2 && c.cur[0] == '{' {
+		// The last relay splices a forged copy of a top-level member in FRONT
+		// of the genuine one. A reader that keeps the last occurrence (the
+		// model here, encoding/json) sees the event unchanged; the bytes the
+		// hash was made over are not these bytes, and a reader that keeps the
+		// first occurrence sees the forged copy: only the redacted form may
+		// come out, without a trace of the forged copy.
+		mk := c.marker()
+		cands := []string{fmt.Sprintf(`"zz_forged":%q,`, mk)}
+		if _, has := m["redacts"]; has && !c.keep.TopKept("redacts") {
+			cands = append(cands, fmt.Sprintf(`"redacts":%q,`, "$"+mk))
+		}
+		if !c.keep.AllContent[c.evType] {
+			// (where the whole content is kept, a forged content is kept material)
+			cands = append(cands, fmt.Sprintf(`"content":{"body":%q,"zz_injected":%q},`, mk, mk), fmt.Sprintf(`"content":{"body":%q,"zz_injected":%q},`, mk, mk))
+		}
+		ins := sim.Pick(c.t, cands)
+		if _, has := m[strings.SplitN(ins[1:], `"`, 2)[0]]; has || strings.HasPrefix(ins, `"zz_forged"`) {
+			c.cur = append(append([]byte("{"), ins...), c.cur[1:]...)
+			expectRedacted = true
+			c.dupFront = true
+			c.fire("top_duplicate_in_front")
+			r.Probe("forged_copy_of_a_member_in_front_of_the_genuine_one")
+		}
+	}
 
 	var p gmsl.PDU
 	var err error
@@ -861,7 +887,9 @@ func (c *c04) receive(h int) {
 	}
 
 	// identity and signatures survive when only redactable material changed
-	if hashSame {
+	if hashSame && !c.dupFront {
+		// (with a member given twice it depends on the reader which of the two
+		// "the" event carries: identity is not judged for those copies)
 		r.Probe("only_redactable_material_altered")
 		c.check(o[0].val == c.builtID, "id_and_sigs", "event_id", "only redactable material was altered (%v) but EventID() = %s, the original is %s; JSON() %q", c.fired, o[0].val, c.builtID, clip(string(p.JSON()), 600))
 		c.sigs(p, "redacted")
